@@ -260,9 +260,15 @@ class C07(Prop):
                     pre, defs = '\n'.join(defs), []
             g = Inline(rng, mode, repl if repl is not None else DEFAULT_REPLACEMENT, extra)
             s, h = g.seq(3, '', 1, 4)
-            # running text: the line starts with a word so that it is not a line-level element
-            w = rng.choice(PLAIN)
-            s, h = w + ' ' + s, esc(w) + ' ' + h
+            # running text: the line starts with a word so that it is not a line-level element - or with an inline tag in any
+            # spelling, which does not make it an HTML block
+            if rng.random() < 0.12:
+                t = rng.choice(['<b>', '<B>', '<Span class="x">', '</EM>', '<KBD>', '<i>', '<Code>', '</a>', '<SUP>'])
+                s, h = t + ' ' + s, html_policy(mode, repl if repl is not None else DEFAULT_REPLACEMENT, t) + ' ' + h
+                g.kinds.add('tag-first')
+            else:
+                w = rng.choice(PLAIN)
+                s, h = w + ' ' + s, esc(w) + ' ' + h
             if rng.random() < 0.15:
                 g.kinds.add('line-break')
                 s2, h2 = g.seq(1, '', 1, 2)
@@ -456,7 +462,7 @@ class Blocks:
             return {'kind': 'header', 'src': '%s %s%s' % (mark, t, rng.choice(['', ' ' + mark])), 'starts': '<h%d>' % n,
                     'exact': '<h%d>%s</h%d>' % (n, esc(t), n)}
         if k == 2:
-            fence = rng.choice(['``', '```', '--', '----'])
+            fence = rng.choice(['``', '```', '--', '----', '---', '-----', '`````'])
             body = '\n'.join(rng.choice([plain(rng), '# not a header', '- not a list', '', '<b>', '.,.', '*x*', fence + ' ', ' ' + fence,
                                           fence + fence[0], fence[:-1]]) for _ in range(rng.randint(1, 3)))
             self.kinds.add('code')
@@ -733,6 +739,26 @@ class C10(Prop):
                 item = (lambda t, tm, body: '<dt>%s</dt><dd>%s</dd>' % (tm, body) if t == 'dl' else '<li>%s</li>' % body)
                 html = '<%s>%s</%s><%s>%s</%s>' % (tag, item(tag, 'T', 'a' + ah), tag, tag2, item(tag2, 'U', 'c'), tag2)
                 g.kinds.add('blank-lines-end-list')
+                yield {'src': '\n'.join(lines), 'expected': html, 'safeMode': mode, 'kinds': sorted(g.kinds)}
+                continue
+            if rng.random() < 0.12:
+                # Block Attributes between the items of a list go to the item that follows (ignored with bit 4, consumed all the
+                # same): the list goes on, with or without a blank line next to the attributes line
+                mk = rng.choice(['-', '*', '.', '+'])
+                tag = LIST_TAGS[mk[0]]
+                mode = rng.choice([0, 1, 4, 5, 12, 15, 9])
+                n = rng.randint(2, 4)
+                lines, html = [], '<%s>' % tag
+                for i in range(n):
+                    cls = ''
+                    if i > 0 and rng.random() < 0.7:
+                        cls = rng.choice(['x', 'k1', 'note'])
+                        lines += rng.choice([['.' + cls], ['', '.' + cls], ['.' + cls, ''], ['', '.' + cls]])
+                    w = plain(rng, 1, 2)
+                    lines.append('%s %s' % (mk, w))
+                    html += '<li%s>%s</li>' % (' class="%s"' % cls if cls and not (mode & 4) else '', esc(w))
+                html += '</%s>' % tag
+                g.kinds.add('attributes-between-items')
                 yield {'src': '\n'.join(lines), 'expected': html, 'safeMode': mode, 'kinds': sorted(g.kinds)}
                 continue
             lines, html = g.lst(rng.randint(1, 4), frozenset())
